@@ -3,6 +3,7 @@ import GlueVerif.Lemmas.C02Table
 import GlueVerif.Lemmas.C02Total
 import GlueVerif.Lemmas.C02LoadLate
 import GlueVerif.Lemmas.C02LoadCb
+import GlueVerif.Lemmas.C02Records
 import GlueVerif.Generated.C02Registry
 /-!
 # C02 — a saved session restores to an observationally equivalent session
@@ -180,6 +181,72 @@ example : wellFormed demoCallbacks 0 = true ∧ inlineForestBy (ownHeight demoCa
     noGenCb demoCallbacks = true ∧
     mainPlain demoCallbacks 0 = true ∧ cyclesBy (candidateRank demoCallbacks) demoCallbacks = true ∧
     coveredBy (candidateDist demoCallbacks 0) demoCallbacks 0 = true := by decide +kernel
+
+/-! ## Part A' — the per-class pairs -/
+
+open Cls in
+/-- **Every pair of the table is field-faithful** (`Model/C02Records.lean`: 43 classes — the ROIs incl.
+`theta`, the subset states incl. the operator table, the composite states re-created from `_type`,
+`AffineCoordinates`, the link helper records, the built-in containers that occur inlined): the transcribed
+loader, dispatched on `_type`, applied to what the transcribed saver returns rebuilds an object of the
+same class with exactly the same fields — for all field values (the only side condition: an
+`InequalitySubsetState` holds a comparison operator, which its constructor enforces).  The
+transcriptions are tied to the code by the `rec` family. -/
+theorem classes_field_faithful (b : Body) (hwf : b.wf = true) : Body.decode b.encode = some b :=
+  Body.decode_encode b hwf
+
+open Cls in
+/-- **roundtrip_classes.**  A session graph all of whose objects are instances of classes of the table
+(`TGraph`: per object its label, class and typed fields; `erase g` is the framework heap in which every
+object is the list of values its *real saver* hands to `context.id` / `context.do`, read off the
+transcribed record): under the graph-shape hypotheses of `roundtrip_framework_callbacks` — which for
+these classes reduce to: references stay inside the graph, inlined objects form a forest, early
+edges decrease `rank`, everything hangs below `main` by non-callback edges (no class of the table has a
+generator loader: proved, not assumed) — saving succeeds, loading succeeds, the Spec holds for the
+context-mediated values (each comes back: literals and strings unchanged, references by name, inlined
+records structurally), and every object's *own* loader, given back what its saver handed out, rebuilds
+exactly the saved typed fields.  The framework hypothesis "each class's pair is field-faithful" is
+thereby discharged for the table: the round trip is the identity on the observable fields. -/
+theorem roundtrip_classes (g : TGraph) (main : Nat) (rank dist idep : Nat → Nat)
+    (hcls : ∀ t ∈ g, t.body.wf = true)
+    (hwf : wellFormed (erase g) main = true) (hin : inlineForestBy idep (erase g) main = true)
+    (hcyc : cyclesBy rank (erase g) = true) (hcov : coveredBy dist (erase g) main = true) :
+    ∃ st T, serialize (erase g) main = .ok (st, T) ∧
+      ∀ fuel, (st.reg.length + 1) * (g.length + 1) + 1 < fuel →
+        ∃ ls i, unserialize T fuel = (ls, .ok (.ref i)) ∧ specRoundTrip (erase g) st.reg ls = true ∧
+          ∀ (o : Nat) (t : TObj), g[o]? = some t →
+            (erase g)[o]? = some ({ cls := t.body.tag.idx, label := t.label, fields := t.body.fields } : Obj) ∧
+            Body.decode t.body.encode = some t.body := by
+  obtain ⟨st, T, hs, hl⟩ := roundtrip_framework_callbacks (erase g) main rank dist idep hwf hin
+    (erase_noGenCb g) (erase_mainPlain g main) hcyc hcov
+  refine ⟨st, T, hs, fun fuel hf => ?_⟩
+  obtain ⟨ls, i, h1, h2⟩ := hl fuel (by rw [erase_length]; exact hf)
+  exact ⟨ls, i, h1, h2, fun o t hot =>
+    ⟨erase_get hot, Body.decode_encode t.body (hcls t (List.mem_of_getElem? hot))⟩⟩
+
+/-- The hypotheses of `roundtrip_classes` are satisfiable by a non-trivial session fragment:
+`main` = an `AndState` of an `InvertState` of a `RangeSubsetState` and a `RoiSubsetState` whose ROI is a rotated
+rectangle; a `SliceSubsetState` (its slices inlined as a tuple of a slice, its reference data resolved by
+callback) in a `MultiOrState`; the attributes are shared (objects 9, 10: stand-ins of class `list`). -/
+def demoTyped : Cls.TGraph := [
+  { label := ['m'], body := .multiOr ⟨[.obj 1, .obj 6]⟩ },
+  { label := ['A', 'n', 'd', 'S', 't', 'a', 't', 'e'], body := .composite ⟨.and_, .obj 2, .obj 4⟩ },
+  { label := ['I', 'n', 'v'], body := .composite ⟨.invert, .obj 3, .lit Cls.litNone⟩ },
+  { label := ['R'], body := .rangeSt ⟨.lit 7, .lit 9, .obj 9⟩ },
+  { label := ['R'], body := .roiSt ⟨.obj 9, .obj 10, .obj 5, .lit Cls.litNone⟩ },
+  { label := ['s', 't', '_', '_'], body := .rect ⟨2, 3, 4, 5, 6⟩ },
+  { label := ['S'], body := .sliceSt ⟨.obj 7, .obj 10⟩ },
+  { label := ['t'], body := .pyTuple ⟨[.obj 8]⟩ },
+  { label := ['s'], body := .pySlice ⟨0, 2, Cls.litNone⟩ },
+  { label := ['x'], body := .pyList ⟨[]⟩ },
+  { label := ['x'], body := .pyList ⟨[.lit 3]⟩ } ]
+
+example : (∀ t ∈ demoTyped, t.body.wf = true) ∧
+    wellFormed (Cls.erase demoTyped) 0 = true ∧
+    inlineForestBy (ownHeight (Cls.erase demoTyped) 12) (Cls.erase demoTyped) 0 = true ∧
+    cyclesBy (candidateRank (Cls.erase demoTyped)) (Cls.erase demoTyped) = true ∧
+    coveredBy (candidateDist (Cls.erase demoTyped) 0) (Cls.erase demoTyped) 0 = true := by
+  decide +kernel
 
 /-! ## Part B — the generated dispatch table -/
 
